@@ -3,6 +3,7 @@ import glob
 import json
 import os
 import subprocess
+import sys
 
 from vlib import core, runner
 from .base import Check
@@ -26,6 +27,9 @@ NEGATIVE_CONTROLS = [
     "nc6_zone_walk: Zone::IsChildOf as a recursion, CanAccessObject as one expression, GetEndpoints collecting into a vector first",
     "nc7_newest_connection_and_parent_walk: SyncSendMessage computing the newest timestamp with std::max over a copied client set and "
     "sending afterwards, Zone::OnAllConfigLoaded's parent walk as a for loop (each parent still resolved by name)",
+    "nc8_replay_guard_handler_alias: ReplayLog's two `continue` guards on the security object as one named bool, SetRemovalInfo's downtime "
+    "branch passing the origin through a local alias, CheckResultHandler building the message inline and passing the log flag as a "
+    "named constant (the E / P lines and the handler-table translator stay silent)",
 ]
 
 
@@ -41,6 +45,11 @@ class C11(Check):
         "no_duplicate", "finite", "finite_and_no_duplicate", "hdepth_of_rank", "complete_when_connected",
         "finite_and_no_duplicate_partial", "complete_when_connected_partial",
         "no_duplicate_three_endpoints_counterexample",
+        # the real cluster event handlers and the replay path
+        "handlers_pass_origin", "handled_no_echo", "handled_meets_spec_partial", "handlers_relay_except_next_notification",
+        "handler_dropping_origin_counterexample", "handled_next_notification_counterexample",
+        "replay_only_entitled_partial", "replay_deleted_not_sent", "replay_meets_spec_partial",
+        "replay_global_counterexample", "replay_no_object_counterexample",
     ]
     technique = ("Lean 4 proof (decision logic stated outright for the per-node relay function over ALL topologies; invariant by "
                  "induction over deliveries for the cluster-wide statements incl. the general no-duplicate / finiteness / completeness theorems; "
@@ -69,12 +78,28 @@ class C11(Check):
                   "of every entitled zone has processed the event exactly once (flush invariant + induction along the path from the "
                   "originating zone). The enumerated `..._partial` theorems (exhaustive kernel evaluation over a listed finite family) are "
                   "kept as a cross-check of the executable forms of both statements. "
-                  "The transcription is tied to the code by differential execution of the real ApiListener::RelayMessage.")
+                  "THE REAL HANDLERS: a table of the 18 cluster events of lib/icinga/clusterevents.cpp that a node re-relays after processing "
+                  "them (does the received origin reach RelayMessage, which security object is named, is the relaying signal handler reached) "
+                  "with `handlers_pass_origin` (every row hands the origin on; the table is re-extracted from the source by gen/c11_handlers.py "
+                  "and compared on every run), `handled_no_echo` (for every topology and wire message: never back to the sender, its zone, or the "
+                  "zone the originZone field names), `handled_meets_spec_partial` (the whole executable specification holds on the re-relay of every "
+                  "row that reaches its signal handler) and kernel-checked counterexamples: a row that drops the origin echoes, and the one row of "
+                  "the real code that never relays (`event::SetNextNotification`, F-C11c). THE REPLAY PATH: the visibility test of "
+                  "ApiListener::ReplayLog with `replay_only_entitled_partial` / `replay_meets_spec_partial` (an event about an object of an "
+                  "ordinary zone, present or deleted meanwhile, is replayed only to endpoints of the object's zone and the zones above it, for "
+                  "every zone graph) and counterexamples for objects of global zones (replayed upwards, F-C11a) and records without security "
+                  "object (replayed downwards, F-C11b). "
+                  "The transcription is tied to the code by differential execution of the real ApiListener::RelayMessage, of the real "
+                  "JsonRpcConnection::MessageHandler + every re-relaying handler of clusterevents.cpp on real Host/Service/Notification/Comment/"
+                  "Downtime objects, and of the real ApiListener::ReplayLog.")
     level_note = ("Trusted: Lean kernel (+ propext, Classical.choice, Quot.sound), the sampled/enumerated correspondence, harness/driver. "
                   "Not modelled: connectivity changing while an event is in flight (C12), TCP/TLS; `syncing` is modelled per node (nothing is "
                   "queued for a syncing endpoint; GetMaster and RelayMessageOne ignore the flag) but not in the network model (Q-C12b), the "
                   "`ts`-based discard of old messages in MessageHandler (C12). The cluster-wide theorems are about the network MODEL (composition "
-                  "of the per-node function that the correspondence ties to the code); robustness: 6 behaviour-preserving rewrites of the anchored "
+                  "of the per-node function that the correspondence ties to the code). Known findings of the unchanged tree, each with a narrow "
+                  "classifier, a kernel-checked counterexample and the full statement kept as `..._partial`: F-C11a (ReplayLog replays events "
+                  "about global-zone objects to any connecting endpoint), F-C11b (records without security object are replayed to child zones), "
+                  "F-C11c (event::SetNextNotification is processed and never relayed: dead signal). Robustness: 8 behaviour-preserving rewrites of the anchored "
                   "code (NEGATIVE_CONTROLS in checks/c11.py, patches in corpus/C11/negative_controls) pass silently; hypotheses: global zones have no parent, forest depth "
                   "within the IsChildOf walk (<= 33), every zone with a parent is a registered Zone object.")
     trusted_base = [
@@ -87,8 +112,17 @@ class C11(Check):
         "explains it (counted as order_free otherwise); the theorems hold for every order",
         "the network model composes the per-node function; ONE network step (origin construction by the real MessageHandler, "
         "acceptance by the real Zone::CanAccessObject, re-relay with that origin) is tied to the code by the D-line correspondence, "
-        "with a harness-registered ApiFunction standing for the cluster event handlers' glue (their guards: C13); a multi-process run "
+        "with a harness-registered ApiFunction standing for the cluster event handlers' glue, AND by the E-line correspondence through "
+        "each of the 18 real re-relaying handlers (whether the node processed the event - object state changed or a notification signal "
+        "fired - is read from the implementation: the handlers' guards are C13's subject); a multi-process run "
         "of whole propagations is not performed - the composition is covered by the theorems",
+        "events a node generates ITSELF while processing a received one (other method names: e.g. event::UpdateExecutions from "
+        "event::ExecutedCommand, event::SendNotifications from a state change) are new local events and only counted (x=); "
+        "event::ExecuteCommand / ExecutedCommand (command forwarding and its replies, C13) are not driven",
+        "the replay path is covered for the entitlement sentence only (what ReplayLog puts on the wire for the connecting endpoint, one "
+        "persisted local event per case, object present / deleted / never named); order, completeness and positions of the replay are C12",
+        "gen/c11_handlers.py is a syntactic reading of clusterevents.cpp (calls that receive the MessageOrigin parameter, RelayMessage "
+        "arguments); it complements the dynamic E lines and is not a proof about the C++",
     ]
     assumptions = [
         "a node is connected to an endpoint iff a JsonRpcConnection object is attached to it (Endpoint::AddClient); connections are "
@@ -162,7 +196,7 @@ class C11(Check):
                 kv = core.parse_kv(l)
                 cl = kv.get("clause", "?")
                 seen[cl] = seen.get(cl, 0) + 1
-                if seen[cl] > 2:
+                if seen[cl] > 2 or (seen[cl] > 1 and len(seen) > 6) or len(seen) > 16:
                     continue
                 shown, isolated = self._shrink(harness, driver, all_lines, int(kv["line"]), "SPECFAIL", "clause=" + cl)
                 res.spec_failures.append(runner.Finding("spec", f"spec:C11:{cl}", shown,
@@ -175,7 +209,7 @@ class C11(Check):
                 seen_ops[op] = seen_ops.get(op, 0) + 1
                 if seen_ops[op] > 1 or len(seen_ops) > 3:
                     continue
-                if op in ("order", "all_parents"):
+                if op in ("order", "all_parents", "handler-table"):
                     shown, isolated = [all_lines[int(kv["line"]) - 1]], False
                 else:
                     shown, isolated = self._shrink(harness, driver, all_lines, int(kv["line"]), "MISMATCH", "op=" + op)
@@ -199,6 +233,13 @@ class C11(Check):
             self._collect(res, lines, open(save).read().splitlines(), harness, driver, os.path.basename(cf))
         save = self.work("gen.out")
         self._harness([harness, "gen", "--seed", str(seed), "--tier", tier], save)
+        # the handler table as the translator reads it from the source under test (compared with `handlers` by the driver)
+        tr = subprocess.run([sys.executable, os.path.join(core.ROOT, "gen", "c11_handlers.py"), core.REPO],
+                            stdout=subprocess.PIPE, stderr=subprocess.PIPE, text=True, timeout=120)
+        if tr.returncode != 0 or not tr.stdout.startswith("H "):
+            raise core.TieBroken("translator:c11:handlers", (tr.stdout + tr.stderr)[-3000:])
+        with open(save, "a") as f:
+            f.write(tr.stdout)
         lines = self._driver(driver, save)
         stats = self._stats(lines)
         if stats is None:
@@ -258,21 +299,80 @@ class C11(Check):
                     "with the computed origin - compared with the model's `deliver` (originOf, accept, relay), full grid when at most cap/2 "
                     "points, else seeded; plus seeded topologies outside the property's quantifier (three endpoints per zone, several global "
                     "zones, a global zone with endpoints). evaluations = RelayMessage calls; a call is non-trivial when something was sent, "
-                    "skipped or persisted; distinct by (topology, node, call) text (counted by the Lean driver). Then the network model is "
+                    "skipped or persisted; distinct by (topology, node, call) text (counted by the Lean driver). Per node identity additionally "
+                    "REAL-HANDLER STEPS (E lines): every other endpoint as sender x originZone field (as for D lines) x every object zone incl. the "
+                    "global one and 'no zone attribute' x 2 (thorough 6) seeded picks among the 38 variants of the 18 re-relaying cluster events "
+                    "(host / service, comment / downtime) with seeded connectivity: the raw message is handed to the real MessageHandler, the "
+                    "real handler of clusterevents.cpp processes it on real objects and re-relays; every connection's queue (the sender's "
+                    "included) is read and `specCase` is evaluated with the origin the wire message defines; and REPLAY STEPS (P lines): every "
+                    "object zone x {Zone object, User of that zone present, User deleted before the replay, no security object} x every other "
+                    "endpoint as the one that connects: local event relayed with nobody connected, real ApiListener::ReplayLog for the "
+                    "connecting endpoint, `specReplay` on what it got. The handler table extracted from clusterevents.cpp (H lines) is compared "
+                    "with the model's. Then the network model is "
                     "run on every generated topology (all originators x object zones x 12 (thorough 60) seeded symmetric connectivity patterns x 4 delivery orders, every node iterating the endpoint sets in its own order; completeness is checked whenever the pattern meets the property's connectivity hypothesis).")
+        es = [l for l in all_lines if l.startswith("E ") and " a=1 " in l and " s=- " not in l]
+        ps = [l for l in all_lines if l.startswith("P ") and " r=1 " in l]
         ds = [l for l in all_lines if l.startswith("D ")]
         rs = [l for l in all_lines if l.startswith("R ")]
         ts = [l for l in all_lines if l.startswith("T ")]
-        res.samples = [ts[len(ts) // 2]] + rs[len(rs) // 2: len(rs) // 2 + 3] + ["..."] + ds[len(ds) // 2: len(ds) // 2 + 2] + ["..."] + rs[-2:]
+        res.samples = [ts[len(ts) // 2]] + rs[len(rs) // 2: len(rs) // 2 + 3] + ["..."] + ds[len(ds) // 2: len(ds) // 2 + 2] + ["..."] + es[len(es) // 2: len(es) // 2 + 2] + ["..."] + ps[len(ps) // 2: len(ps) // 2 + 2] + ["..."] + rs[-2:]
         return res
 
     def replay(self, path, harness, driver):
         data = json.load(open(path))
-        lines = [l for l in data.get("case", []) if l[:2] in ("T ", "R ", "D ", "M ")]
+        lines = [l for l in data.get("case", []) if l[:2] in ("T ", "R ", "D ", "M ", "E ", "P ")]
         out, shown = self._replay_lines(harness, driver, lines, "replay")
         print("\n".join(shown))
         print("\n".join(out))
         return not any(l.startswith(("SPECFAIL", "MISMATCH", "BADLINE")) for l in out)
+
+
+    # ------------------------------------------------------------------------------------------
+    # known findings: narrow classifiers over the isolated witness (T line + ONE case line with its observation)
+    @staticmethod
+    def _witness(finding, tag):
+        ts = [l for l in finding.case_lines if l.startswith("T ")]
+        cs = [l for l in finding.case_lines if l.startswith(tag + " ")]
+        if len(ts) != 1 or len(cs) != 1:
+            return None, None
+        return ts[0].split("|")[0].split(), cs[0]
+
+    def matches_known(self, entry, finding):
+        if finding.kind != "spec":
+            return False
+        cl = entry.get("classifier")
+        what = finding.what
+        try:
+            if cl == "c11_replay_global_object_beyond_own_zone_and_children":
+                if what != "spec:C11:replay_global_own_zone_and_children":
+                    return False
+                t, c = self._witness(finding, "P")
+                if t is None:
+                    return False
+                w = c.split("|")[0].split()            # P <objzone> <kind> <del> <target>
+                nz = int(t[3])
+                parents = t[4:4 + nz]
+                return (w[1] != "-" and parents[int(w[1])] == "g" and w[2] in ("u", "z") and w[3] == "0"
+                        and " p=1 " in c + " " and " r=1 " in c + " ")
+            if cl == "c11_replay_record_without_object_below_own_zone":
+                if what != "spec:C11:replay_no_object_own_zone_and_above":
+                    return False
+                t, c = self._witness(finding, "P")
+                if t is None:
+                    return False
+                w = c.split("|")[0].split()
+                return w[1] == "-" and w[2] == "n" and w[3] == "0" and " p=1 " in c + " " and " r=1 " in c + " "
+            if cl == "c11_next_notification_processed_not_relayed":
+                if what not in ("spec:C11:forwarded_when_reachable@SetNextNotification", "spec:C11:logged_not_dropped@SetNextNotification"):
+                    return False
+                t, c = self._witness(finding, "E")
+                if t is None:
+                    return False
+                w = c.split("|")[0].split()            # E <conn> <from> <originzone> <objzone> <method> <var>
+                return w[5] == "SetNextNotification" and " a=1 " in c and " s=- " in c and " p=0 " in c
+        except (ValueError, IndexError):
+            return False
+        return False
 
 
 CHECK = C11()
